@@ -208,7 +208,8 @@ def run(ctx, chk):
     for b in fb.bodies(common.SHM):
         if b.name == 'new' and (b.impl_self or '').endswith(('ShmReader', 'ShmWriter')):
             side = 'reader' if b.impl_self.endswith('ShmReader') else 'writer'
-            from .startup_model import is_reader_new
+            from .startup_model import is_reader_new, init_reader_open
+            init_reader_open(fb)
             eng = common.mk_engine(fb, inline_depth=8, loop_unroll=8, no_inline=(is_reader_new if side == 'writer' else None))
             for q in eng.run(b):
                 if q.kind == 'return' and q.value[0] == 'agg' and q.value[2] == 'Ok':
